@@ -100,17 +100,22 @@ def toLowerAscii (s : Str) : Str :=
 /-- `strings.ReplaceAll(s, old, new)` for non-empty `old` -/
 def replaceAll (old new : Str) (s : Str) : Str := join new (splitOn old s)
 
-/-- `strings.NewReplacer(pairs…).Replace`: at each position the first pair (in argument order)
-    whose pattern matches is applied (generic replacer semantics; all patterns non-empty) -/
-def replacerAux (pairs : List (Str × Str)) : Nat → Str → Str
-  | 0, s => s
-  | _ + 1, [] => []
-  | fuel + 1, x :: xs =>
-    match pairs.findSome? (fun p => (dropPrefix? p.1 (x :: xs)).map (fun rest => (p.2, rest))) with
-    | some (rep, rest) => rep ++ replacerAux pairs fuel rest
-    | none => x :: replacerAux pairs fuel xs
+/-- first pair (in argument order) whose pattern is a prefix of `s`: its replacement and the pattern length -/
+def matchPair (pairs : List (Str × Str)) (s : Str) : Option (Str × Nat) :=
+  pairs.findSome? fun p => if hasPrefix p.1 s then some (p.2, p.1.length) else none
 
-def replacer (pairs : List (Str × Str)) (s : Str) : Str := replacerAux pairs (s.length + 1) s
+/-- `strings.NewReplacer(pairs…).Replace`: scanning left to right, at each position the first pair
+    (in argument order) whose pattern matches is applied and the scan resumes after the match (all
+    patterns non-empty). `skip` counts the characters of the current match still to be passed. -/
+def replGo (pairs : List (Str × Str)) : Str → Nat → Str
+  | [], _ => []
+  | _ :: xs, skip + 1 => replGo pairs xs skip
+  | x :: xs, 0 =>
+    match matchPair pairs (x :: xs) with
+    | some (rep, n) => rep ++ replGo pairs xs (n - 1)
+    | none => x :: replGo pairs xs 0
+
+def replacer (pairs : List (Str × Str)) (s : Str) : Str := replGo pairs s 0
 
 end Go
 end Astisub
